@@ -305,7 +305,7 @@ impl ::tokio::io::AsyncWrite for Stdout {
 pub fn stdin_push(bytes: &[u8], release: usize) {
     let w = with(|c| {
         c.stdin.data.extend(bytes.iter().copied());
-        c.stdin.released = (c.stdin.released + release).min(c.stdin.data.len());
+        c.stdin.released = c.stdin.released.saturating_add(release).min(c.stdin.data.len());
         if c.stdin.released > 0 {
             c.stdin.waker.take()
         } else {
@@ -319,7 +319,7 @@ pub fn stdin_push(bytes: &[u8], release: usize) {
 
 pub fn stdin_release(n: usize) {
     let w = with(|c| {
-        c.stdin.released = (c.stdin.released + n).min(c.stdin.data.len());
+        c.stdin.released = c.stdin.released.saturating_add(n).min(c.stdin.data.len());
         if c.stdin.released > 0 {
             c.stdin.waker.take()
         } else {
